@@ -110,3 +110,68 @@ Proof.
   - destruct (p_skip_all_tile txt s T) as (s' & E & _). eauto.
   - intros k m. destruct (p_expect_tile txt s k m T) as (s' & E & _). eauto.
 Qed.
+
+(** * C02: totality (termination + no panic) for every program accepted by the three reflective checks *)
+From TG.Proofs Require Import BldAn BldBase SafeSound.
+
+Section TOTAL.
+Variable p : prog.
+Variable ce : cert.
+Variable sigs : list fsig.
+Variable entry : nat.
+Hypothesis CHK : chk_all p ce entry = true.
+Hypothesis BCHK : bchk_all p sigs entry = true.
+
+Theorem parse_total : forall txt, exists fuel t errs st, parse_with fuel p entry txt = ParseOk t errs st.
+Proof.
+  intros txt.
+  pose proof (chk_all_cert p ce entry CHK) as CERT.
+  unfold bchk_all in BCHK. apply andb_prop in BCHK. destruct BCHK as [BF BE].
+  pose proof (bchk_fns_sigs_ok p sigs BF) as SIGS.
+  destruct (nth_error (fns p) entry) as [body|] eqn:FB; [|discriminate].
+  destruct (nth_error sigs entry) as [[| |]|] eqn:SG; try discriminate.
+  destruct (parse_terminates p ce entry CHK txt) as (fuel & NO).
+  exists fuel. unfold parse_with in *. set (s0 := p_new txt) in *.
+  destruct fuel as [|n]; [cbn in NO; congruence|].
+  cbn [gexec] in *. unfold fn_body in *. rewrite FB in *.
+  (* the body of the entry function, run on the empty builder *)
+  set (a0 := {| dep := 0; sta := SZero; tys := [] |}).
+  assert (G0 : BG [] 0 a0 [] (bld s0)).
+  { assert (B0 : bld s0 = builder_init).
+    { unfold s0, p_new. rewrite p_lex_bld. reflexivity. }
+    rewrite B0. constructor.
+    - cbn. lia.
+    - reflexivity.
+    - reflexivity.
+    - unfold NPof, nc. cbn. lia.
+    - unfold NPof, nc. reflexivity.
+    - intros x. cbn [a0 tys]. rewrite ty_at_nil. exact I. }
+  assert (PRE : kmem (cur s0) (pre (cert_of ce entry)) = true).
+  { eapply ksub_spec; [apply (chk_all_pre p ce entry CHK)|apply kmem_kall]. }
+  destruct (CERT entry body (cur s0) FB PRE) as (OKB & _ & _).
+  unfold bchk_entry in BE.
+  apply andb_prop in BE. destruct BE as [BE EXR]. apply andb_prop in BE. destruct BE as [BE EXN].
+  apply andb_prop in BE. destruct BE as [BE NOB]. apply andb_prop in BE. destruct BE as [BOKB IBB].
+  fold a0 in BOKB, IBB, NOB, EXN, EXR.
+  pose proof (safe_sound p ce sigs txt CERT SIGS n true _ body {| L := kof [cur s0]; cs := false |} a0 [] s0 [] 0 (kmem_self (cur s0)) OKB (p_new_tile txt) G0 BOKB) as P1.
+  assert (FIN : forall a1 en1 s1, BG [] 0 a1 en1 (bld s1) -> exit_one (Some a1) = true -> exists t es, p_finish s1 = Some (t, es)).
+  { intros a1 en1 s1 G1 EX. cbn in EX. apply andb_prop in EX. destruct EX as [ED ES].
+    apply Nat.eqb_eq in ED. apply sta_eqb_eq in ES.
+    destruct (BG_finish _ _ _ G1 ED ES) as (t & F). unfold p_finish. rewrite F. eauto. }
+  destruct (gexec n p body [] s0) as [v en1 s1|en1 s1|v en1 s1| |]; cbn [bpost] in P1.
+  - destruct P1 as (a1 & vt & B1 & G1 & V1). rewrite B1 in EXN. cbn [option_map fst] in EXN.
+    destruct (FIN a1 en1 s1 G1 EXN) as (t & es & F). rewrite F. eauto.
+  - destruct P1 as (a1 & B1 & _). rewrite B1 in NOB. discriminate.
+  - destruct P1 as (a1 & B1 & G1 & _). rewrite B1 in EXR.
+    destruct (FIN a1 en1 s1 G1 EXR) as (t & es & F). rewrite F. eauto.
+  - contradiction.
+  - congruence.
+Qed.
+
+End TOTAL.
+
+Lemma grammar_bchk_all : bchk_all grammar_prog grammar_sigs grammar_entry = true.
+Proof. vm_compute. reflexivity. Qed.
+
+Theorem grammar_total : forall txt, exists fuel t errs st, parse_with fuel grammar_prog grammar_entry txt = ParseOk t errs st.
+Proof. exact (parse_total _ _ _ _ grammar_chk_all grammar_bchk_all). Qed.
